@@ -20,6 +20,38 @@ func echCapableTargets() []Target {
 		out = append(out, Target{Name: p.Name, ID: p.ID})
 	}
 	out = append(out, Target{Name: "Golang", ID: tls.HelloGolang})
+	// ECH-capable specs whose compressible extensions are large (more than 2000 bytes of
+	// key shares / of ALPN protocols): they must reach the inner hello like small ones
+	for _, variant := range []string{"two-hybrid-shares", "long-alpn"} {
+		variant := variant
+		out = append(out, Target{Name: "Chrome_120+" + variant, Spec: func() (*tls.ClientHelloSpec, error) {
+			sp, err := tls.UTLSIdToSpec(tls.HelloChrome_120)
+			if err != nil {
+				return nil, err
+			}
+			for i, e := range sp.Extensions {
+				switch x := e.(type) {
+				case *tls.SupportedCurvesExtension:
+					if variant == "two-hybrid-shares" {
+						sp.Extensions[i] = &tls.SupportedCurvesExtension{Curves: []tls.CurveID{tls.GREASE_PLACEHOLDER, tls.X25519MLKEM768, tls.X25519Kyber768Draft00, tls.X25519, tls.CurveP256, tls.CurveP384}}
+					}
+				case *tls.KeyShareExtension:
+					if variant == "two-hybrid-shares" {
+						sp.Extensions[i] = &tls.KeyShareExtension{KeyShares: []tls.KeyShare{{Group: tls.GREASE_PLACEHOLDER, Data: []byte{0}}, {Group: tls.X25519MLKEM768}, {Group: tls.X25519Kyber768Draft00}, {Group: tls.X25519}}}
+					}
+				case *tls.ALPNExtension:
+					if variant == "long-alpn" {
+						protos := append([]string(nil), x.AlpnProtocols...)
+						for k := 0; k < 60; k++ {
+							protos = append(protos, fmt.Sprintf("verif-application-protocol-number-%04d/1.0", k))
+						}
+						sp.Extensions[i] = &tls.ALPNExtension{AlpnProtocols: protos}
+					}
+				}
+			}
+			return &sp, nil
+		}})
+	}
 	return out
 }
 
@@ -116,6 +148,12 @@ func TestC15(t *testing.T) {
 				return &sp, nil
 			}}
 			r.Count("specs_with_prefilled_server_name", 1)
+		}
+		if i%4 == 2 && tgt.ID.Client != tls.HelloGolang.Client {
+			// a caller that (re)states the server name through the documented setter once the
+			// hello exists: SetSNI with the name the Config already has
+			tgt.Edit = func(u *tls.UConn) error { u.SetSNI(secret); return nil }
+			r.Count("connections_with_setsni_after_build", 1)
 		}
 		h := RunCase(tgt, GridCase{Server: scfg}, secret, extra, peer.Opts{})
 		sig := map[string]string{"target": j.t.Name, "behaviour": j.behave, "aead": fmt.Sprint(j.aead)}
